@@ -204,16 +204,26 @@ func ZZ_C03_light_node() {
 func ZZ_C03_apply_binds_data() {
 	zzsym.FreezeClock()
 	e := zzNewEnv(1)
-	e.zzChain(4, 1, []bool{true})
+	// the proposer's block is empty or carries one transaction
+	genuineNonEmpty := zzsym.Bool("genuine-nonempty")
+	e.zzChain(4, 1, []bool{genuineNonEmpty})
 	b := e.store.blocks[5]
-	d := &types.Data{Txs: types.Txs{types.Tx(zzsym.BytesN("ptx", 1))}}
-	if zzsym.Bool("withmeta") {
+	// what a third party delivers over P2P for that height: unsigned data with 0..1
+	// transactions, metadata absent, arbitrary, or copied from the public header
+	d := &types.Data{}
+	if zzsym.Bool("offered-nonempty") {
+		d.Txs = types.Txs{types.Tx(zzsym.BytesN("ptx", 1))}
+	}
+	switch zzsym.Pick("meta", 3) {
+	case 1:
 		d.Metadata = &types.Metadata{ChainID: e.chainID, Height: zzsym.U64("mh"), Time: zzsym.U64("mt")}
+	case 2:
+		d.Metadata = &types.Metadata{ChainID: e.chainID, Height: b.header.Height(), Time: b.header.BaseHeader.Time, LastDataHash: b.data.Metadata.LastDataHash}
 	}
 	m := e.zzManager(types.State{ChainID: e.chainID, InitialHeight: 1, LastBlockHeight: 4, AppHash: b.header.AppHash})
 	if m.execValidate(m.lastState, zzCopyHeader(b.header), d) == nil {
 		zzsym.Reach("validated")
-		zzsym.Assert(bytes.Equal(d.Txs[0], b.data.Txs[0]), "validated-data-is-the-data-the-header-commits-to")
+		zzsym.Assert(zzTxsEqual(d.Txs, zzRaw(b.data.Txs)), "validated-data-is-the-data-the-header-commits-to")
 	} else {
 		zzsym.Reach("refused")
 	}
